@@ -18,6 +18,7 @@ def main(tier):
     segments.table_provenance(P, rep)          # per-section tables have one shape (K2): no out-of-bounds read between sections
     sib.model_families(P, rep)                 # sibling implementations agree on their guards (zero-thickness, range, sentinel tests)
     dep.surface_pairing(P, rep)
+    segments.line_siblings(P, rep)     # slab and fault are copies of one another: shortcuts, input checks and guards must agree
     rep.assumptions.append("finiteness of the returned numbers and absence of division by zero at degenerate points are NOT decided in "
                            "general (numeric; see DESIGN.md §4 C13); decided are only the shape of some guards: the NaN-absorbing clamp before "
                            "acos, release-active arity checks of per-section tables, agreement of sibling models on their guards")
